@@ -13,10 +13,10 @@ RULE = ("(a) every edge list object the fast and custom generators return over e
         "topology names x 2 id patterns, is converted to a network and back with the real converters and compared "
         "with an independent description; non-trivial = distinct edge list with a zero row, loop or repeated pair")
 BOUNDS = {"quick": "(a) generator box of C01 restricted to <= 120 arrangements; (b) N<=3, L<=3",
-          "thorough": "(a) generator box (thorough) restricted to <= 400 arrangements; (b) N<=4, L<=4"}
+          "thorough": "(a) generator box (thorough) restricted to <= 150 arrangements; (b) N<=4, L<=4"}
 ASSUMPTIONS = ["attributes of collapsed repeated pairs are unspecified by the property and not compared",
                "hand-enumerated lists carry the joint degrees implied by their rows (zero rows for untouched vertices)"]
-CAP = {"quick": 120, "thorough": 400}
+CAP = {"quick": 120, "thorough": 150}
 HAND = {"quick": (3, 3), "thorough": (4, 4)}
 
 
